@@ -9,6 +9,7 @@ sub-strategy equal to the child's price on every date; settings pushed from the 
 from harness.common import EPS_MONEY, bt, dates, frame
 
 BOUNDS = {
+    'added': 'sub-strategy pushed to a whole-unit mode different from its parent (before or after setup) with lazily created securities; late-attached sub-strategy under a parent that declared nothing; structure read by a monitoring algo from the first date; root that never gains a child itself',
     'quick': 'recipes: root with <= 3 children, each a string / Security / strategy(with <= 2 children of its own, one more level in the push test), names from '
              '{a,b,c}, built by list, dict or parent=; 2 pushes of use_integer_positions at solver-chosen nodes; node re-use across two constructions; '
              'lazy-vs-eager and universe scoping on flat and nested trees over 4 dates with symbolic capital and symbolic last-date prices',
